@@ -3,12 +3,13 @@
   Core-only, links as a lean_exe.
 -/
 import AferoVerif.Engine.MemFile
+import AferoVerif.Engine.Contains
 open AferoVerif
 
 partial def loop {σ : Type} (h : IO.FS.Stream) (out : IO.FS.Stream) (step : σ → String → σ × String) (s : σ) : IO Unit := do
   let line ← h.getLine
   if line.isEmpty then return ()
-  let line := (line.dropRightWhile fun c => c == '\n' || c == '\r')
+  let line := line.trimAsciiEnd.toString
   let (s', o) := step s line
   out.putStrLn o
   loop h out step s'
@@ -18,4 +19,5 @@ def main (args : List String) : IO UInt32 := do
   let stdout ← IO.getStdout
   match args with
   | ["memfile"] => loop stdin stdout Engine.MemFile.stepLine Engine.MemFile.init; return 0
+  | ["contains"] => loop stdin stdout Engine.Contains.stepLine (); return 0
   | _ => IO.eprintln "usage: driver <engine>"; return 2
